@@ -4,8 +4,8 @@ package main
 
 import (
 	"fmt"
-	"regexp"
 	"go/types"
+	"regexp"
 	"sort"
 	"strings"
 
